@@ -59,6 +59,7 @@ structure St where
   dWl : Bool := true
   dNum : Nat := 50
   deco : Deco.DSt := Deco.DSt.init
+  pvals : List PVal := [default]
 
 def parseOptNat? (s : String) : Option (Option Nat) :=
   if s == "-" then some none else (parseNat? s).map some
@@ -143,6 +144,31 @@ def step (st : St) : List String → St × String
       | .ok (s', v, how) =>
         ({ st with st := s' },
           s!"ok {showHow how} id={v.id} key={showKey v.key} ver={v.ver} num={s'.num} cache={showCache s'.cache}")
+    | _, _, _, _, _ => (st, "bad-op")
+  | ["pnew", ob, c, k] =>
+    match parseNat? ob, parseNat? c, parseNat? k with
+    | some ob, some c, some k => ({ st with pvals := (PSt.init ⟨ob, c, k⟩).vals }, "ok")
+    | _, _, _ => (st, "bad-op")
+  | ["pset", ob, c, k] =>
+    match parseNat? ob, parseNat? c, parseNat? k with
+    | some ob, some c, some k =>
+      let e : Elem := { gridDep := st.gridDep, wlDep := st.wlDep, maxN := st.maxN,
+                        getIn := fun _ _ _ => none, getOut := fun _ _ _ => none }
+      let p' := (pstep e ⟨st.st, st.pvals⟩ (.set ⟨ob, c, k⟩)).1
+      ({ st with st := p'.st, pvals := p'.vals }, "ok " ++ showState p'.st)
+    | _, _, _ => (st, "bad-op")
+  | ["preq", i, o, w, gi, go] =>
+    match parseOptGrid? i, parseOptGrid? o, parseOptNat? w, parseOptGrid? gi, parseOptGrid? go with
+    | some i, some o, some w, some gi, some go =>
+      let e : Elem := { gridDep := st.gridDep, wlDep := st.wlDep, maxN := st.maxN,
+                        getIn := fun _ _ _ => gi, getOut := fun _ _ _ => go }
+      match pstep e ⟨st.st, st.pvals⟩ (.req i o w) with
+      | (p', .built key v) =>
+        ({ st with st := p'.st, pvals := p'.vals },
+          s!"ok key={showKey key} built={v.obj}.{v.content}.{v.kind} num={p'.st.num} cache={showCache p'.st.cache}")
+      | (_, .error .value) => (st, "err value")
+      | (_, .error .key) => (st, "err key")
+      | (_, .done) => (st, "bad-op")
     | _, _, _, _, _ => (st, "bad-op")
   | ["clear"] =>
     let s' := st.st.clear
